@@ -1686,6 +1686,7 @@ Proof.
   intros ptab s perm res H. unfold implicit_users in H.
   destruct (m_values (e_model s) s_p s_p 0) as [subjects|]; [|discriminate].
   destruct (m_values (e_model s) s_g s_g 1) as [roles|]; [|discriminate].
+  match type of H with (if ?c then _ else _) = _ => destruct c; [discriminate|] end.
   inversion H as [Hres]. clear H. exists subjects, roles.
   split; [reflexivity|]. split; [reflexivity|]. split; [apply dedup_NoDup|].
   intros u. rewrite dedup_In, !filter_In, in_app_iff, in_flat_map, negb_true_iff, memb_not_In.
